@@ -22,7 +22,7 @@ from .loop import SimDeadlock, SimLoop, SimNet
 
 PROP = "C07"
 LEVEL = "exploration"
-MEM_GIB = 8.0
+MEM_GIB = 4.0
 SHRINK_CAP = 600
 SHRINK_WALL_S = 90
 
